@@ -215,6 +215,16 @@ fn many_functions_probe<T: Sc>(rep: &mut Report) {
             if present(&os) && present(&op) {
                 let dv = obs_close(&os, &op);
                 rep.check("C11", dv <= 1e-9, dv, || det("parallel problem differs from the sequential problem", dv));
+                for t in [2usize, 3, 7] {
+                    let pool = rayon::ThreadPoolBuilder::new().num_threads(t).build().unwrap();
+                    let ot = pool.install(|| {
+                        par.set_params(&[T::of64(wv)]);
+                        observe(par.as_ref())
+                    });
+                    let dv = obs_close(&os, &ot);
+                    rep.check("C11", dv <= 1e-9, dv, || det(&format!("parallel problem in a pool of {t} threads differs from the sequential problem"), dv));
+                    crate::report::hash_obs(rep, &ot.c, &ot.r, &ot.j);
+                }
             }
             if let (Some(cm), Some(r)) = (&os.cm, &os.r) {
                 let phi = model0.phi64(wv);
@@ -327,6 +337,19 @@ fn many_columns_probe<T: Sc>(rep: &mut Report) {
                 continue;
             };
             crate::report::hash_obs(rep, &om.c, &om.r, &om.j);
+            // C11: independent of the number of worker threads (the same update inside pools of 1, 2, 3 and 7)
+            if par {
+                for t in [1usize, 2, 3, 7] {
+                    let pool = rayon::ThreadPoolBuilder::new().num_threads(t).build().unwrap();
+                    let ot = pool.install(|| {
+                        multi.set_params(&[T::of64(wv)]);
+                        observe(multi.as_ref())
+                    });
+                    let dv = obs_close(&om, &ot);
+                    rep.check("C11", dv <= T::tol(), dv, || json!({"flavour": flav, "threads": t, "dev": dv, "what": "parallel problem depends on the size of the thread pool"}));
+                    crate::report::hash_obs(rep, &ot.c, &ot.r, &ot.j);
+                }
+            }
             // C11: the other flavour of the same problem exposes the same values
             if let Ok(mut other) = build_problem(FourierModel::<T>::new(n, h, 1.0), true, !par, &y, w.as_deref(), None) {
                 other.set_params(&[T::of64(wv)]);
